@@ -9,7 +9,6 @@ import (
 	"slices"
 	"strings"
 
-	"github.com/grpc-ecosystem/grpc-gateway/v2/runtime"
 	"github.com/grpc-ecosystem/grpc-gateway/v2/utilities"
 	"github.com/renbou/grpcbridge/internal/gwquery"
 	"github.com/renbou/grpcbridge/internal/httperr"
@@ -235,7 +234,7 @@ func (t *standardRequestTranscoder) transcodeFunc(supportsEOF bool, reqMsg proto
 		return nil
 	}
 
-	if err := runtime.PopulateQueryParameters(reqMsg, t.req.RawRequest.URL.Query(), t.queryParamFilter()); err != nil {
+	if err := gwquery.PopulateQueryParameters(reqMsg, t.req.RawRequest.URL.Query(), t.queryParamFilter()); err != nil {
 		return status.Errorf(codes.InvalidArgument, "parsing query parameters: %s", err)
 	}
 
